@@ -675,9 +675,14 @@ func init() {
 	register(&Property{ID: "C01", Streams: []*Stream{
 		{
 			Name: "bodies", Quick: 1000, Thorough: 8000, New: func() Case { return &fmtCase{} },
-			Gen:      func(r *Rng, i int) Case { return genFmtCase(r) },
+			Gen: func(r *Rng, i int) Case {
+				if i%5 == 4 {
+					return genSkipFmtCase(r) // some types answer ErrSkip after they rendered: what was rendered stays
+				}
+				return genFmtCase(r)
+			},
 			BatchRun: fmtBatch, ShrinkBudget: 40, MaxShrinks: 6,
-			Rule: "one package per case (directory p0 / api / v1) in modules with go directives 1.12, 1.18–1.24, patch releases (1.21.0, 1.23.4, 1.24.2) and release candidates (1.21rc2, 1.24rc1), and five module paths (with and without a dot, versioned); 1–3 types each rendering 1–6 snippets from a declaration grammar (functions with odd whitespace and semicolon-joined statements, documented functions with blank lines and trailing comments, single and grouped vars, consts, struct types with tags and methods, grouped types, detached line and block comments, references through PkgExpose to 12 std and module-local packages, the package's own type); real Execute in child processes; compared: the written file with gofumpt∘SortImports∘parse applied to the model's assembled source (same library versions); oracle on the file: parses, opens with the generator comment, package clause, imports = referenced packages, declaration list = rendered declarations (printed spec by spec), gofmt and gofumpt fixed points",
+			Rule: "one package per case (directory p0 / api / v1) in modules with go directives 1.12, 1.18–1.24, patch releases (1.21.0, 1.23.4, 1.24.2) and release candidates (1.21rc2, 1.24rc1), and five module paths (with and without a dot, versioned); 1–3 types each rendering 1–6 snippets (in a fifth of the cases some of the types then answer ErrSkip: what they rendered stays in the file) from a declaration grammar (functions with odd whitespace and semicolon-joined statements, documented functions with blank lines and trailing comments, single and grouped vars, consts, struct types with tags and methods, grouped types, detached line and block comments, references through PkgExpose to 12 std and module-local packages, the package's own type); real Execute in child processes; compared: the written file with gofumpt∘SortImports∘parse applied to the model's assembled source (same library versions); oracle on the file: parses, opens with the generator comment, package clause, imports = referenced packages, declaration list = rendered declarations (printed spec by spec), gofmt and gofumpt fixed points",
 		},
 	}})
 }
